@@ -296,13 +296,13 @@ def check_fit(res, fns, profile, h=None):
         kinds.add(kind)
         mins = [e for e in q.log if e[0] == "minimize"]
         if len(mins) != 1:
-            res.oblige(f"fit[{profile}] calls the optimizer exactly once", "sat")
-            add_structural_violation(res, f"fit:minimize_calls:{profile}", f"fit calls minimize {len(mins)} times on a path")
+            # (a different call structure is not a violation of the property: no verdict from this engine)
+            res.tool_errors.append(f"fit[{profile}]: the optimizer is called {len(mins)} times on a path; the summary of this engine assumes one call")
             continue
         _, given, prob, rep = mins[0]
         res.oblige(f"fit[{profile}] hands the caller's problem to the optimizer", "unsat" if same(given, args[1]) else "sat")
         if not same(given, args[1]):
-            add_structural_violation(res, f"fit:problem_arg:{profile}", "fit does not hand the caller's problem to the optimizer")
+            add_structural_violation(res, f"fit:problem_arg:{profile}", "fit does not hand the caller's problem to the optimizer", native=("fitmap", {}))
         succ = SUCC(rep.fields[(None, 0)].id)
         if kind == "Ok":
             v, _ = check_unsat(m, q.pc, [z3.Not(succ)], "")
@@ -334,6 +334,10 @@ def add_structural_violation(res, role, detail, native=None):
     if any(v["role"] == role for v in res.violations):
         return
     confirmed = None
+    if native is None:
+        # a data-flow deviation that has no native replay is reported as "no verdict", never as a violation
+        res.tool_errors.append(f"{role}: {detail} (structural deviation without native replay: no verdict)")
+        return
     if native is not None:
         import engine_r
         h = engine_r.Harness(tag="mreplay")
@@ -385,7 +389,7 @@ def check_fit_with_statistics(res, fns, profile, h=None):
         kind, payload = result_kind(ret)
         mins = [e for e in q.log if e[0] == "minimize"]
         if len(mins) != 1:
-            add_structural_violation(res, f"fws:minimize_calls:{profile}", f"minimize called {len(mins)} times")
+            res.tool_errors.append(f"fit_with_statistics[{profile}]: the optimizer is called {len(mins)} times on a path; the summary of this engine assumes one call")
             continue
         _, given, prob, rep = mins[0]
         succ = SUCC(rep.fields[(None, 0)].id)
@@ -481,11 +485,13 @@ def check_build(res, fns, profile, h=None):
         wfield = w2.fields.get(("Diagonal", 0))
         wlen = em.uf("diag_len", mirse.Val, z3.BitVecSort(64))(wfield.id) if isinstance(wfield, Obj) else None
         wbad = z3.And(wdiag, wlen != rows) if wlen is not None else z3.BoolVal(False)
+        # an error must name a requirement that IS violated (which one, if several are, is left to the implementation);
+        # Ok exactly when none is violated
         expect = {
             "YDataMissing": z3.Not(have_y),
             "ZeroLengthVector": z3.And(have_y, zero),
-            "InvalidLengthOfData": z3.And(have_y, z3.Not(zero), X != rows),
-            "InvalidLengthOfWeights": z3.And(have_y, z3.Not(zero), X == rows, wbad),
+            "InvalidLengthOfData": z3.And(have_y, X != rows),
+            "InvalidLengthOfWeights": z3.And(have_y, wbad),
             "Ok": z3.And(have_y, z3.Not(zero), X == rows, z3.Not(wbad)),
         }
         outcome = "Ok" if kind == "Ok" else err_label(payload)
@@ -512,15 +518,16 @@ def check_build(res, fns, profile, h=None):
         if outcome == "Ok":
             prob = payload
             sp = [e for e in q.log if e[0] == "problem.set_params"]
-            okc = len(sp) == 1 and isinstance(prob, Obj) and same(sp[0][1], prob)
-            res.oblige(f"build[{profile}] Ok: exactly one parameter update on the returned problem", "unsat" if okc else "sat")
+            # (how many updates build() performs is an implementation detail; the LAST one decides the state handed back)
+            okc = len(sp) >= 1 and isinstance(prob, Obj) and same(sp[-1][1], prob)
+            res.oblige(f"build[{profile}] Ok: the returned problem has been updated at least once", "unsat" if okc else "sat")
             if not okc:
                 add_structural_violation(res, f"build:update:{profile}", f"build() performs {len(sp)} parameter updates on the returned problem", native=("buildcase", dict(have_y=1, x=3, rows=3, cols=1, wdiag=0, wlen=0)))
                 continue
-            pr = sp[0][2]
+            pr = sp[-1][2]
             okp = isinstance(pr, Obj) and pr.meta.get("fn") == "model.params" and same(pr.meta["args"][0], b2.fields[(None, 1)])
             res.oblige(f"build[{profile}] Ok: the update applies model.params() of the supplied model", "unsat" if okp else "sat")
-            f = sp[0][3]
+            f = sp[-1][3]
             yw, mod, eps, wts, cached = (f.get((None, i)) for i in range(5))
             oky = isinstance(yw, Obj) and yw.meta.get("fn") == "weights*matrix" and same(yw.meta["args"][0], w2) and same(yw.meta["args"][1], b2.fields[(None, 0)].fields[("Some", 0)])
             res.oblige(f"build[{profile}] Ok: Y_w = weights * Y (weights applied exactly once)", "unsat" if oky else "sat")
@@ -609,7 +616,9 @@ def check_par_drift(res, fns_unused, profile, h=None):
                 res.samples.append({"obligation": f"MIR of the sequential and the parallel `{nm}` are identical modulo the PARALLEL const generic", "verdict": "identical", "statements": len(a)})
         else:
             diff = next((f"{x} | {y}" for x, y in zip(a, b) if x != y), f"length {len(a)} vs {len(b)}")
-            add_structural_violation(res, f"pardrift:{nm}", f"the sequential and the parallel implementation of `{nm}` differ: {diff[:300]}", native=None)
+            # different code is not yet different behaviour: the equality of the two flavours is decided by Engine R;
+            # a syntactic difference is only listed (the argument "identical closure => schedule independence" no longer applies)
+            res.undischarged.append((f"pardrift:{nm}", "differs", f"the sequential and the parallel implementation of `{nm}` differ syntactically: {diff[:200]}"))
     res.functions.append(f"<LevMarProblem<_,_,false/true> as LeastSquaresProblem>::{{set_params, params, residuals}} and the closures of set_params/residuals/jacobian: {compared} pairs of MIR bodies compared (--features parallel)")
 
 
